@@ -24,3 +24,87 @@ package data_lister
 //@   pure
 //@   ensures result1 == nil ==> forall i int :: 0 <= i && i < len(result0) ==> result0[i] != nil
 //@ end
+
+// ---- added by helper "cache" ----
+// Same assumption as above for the remaining list calls of the snapshot: read-only, and a successful
+// list has no nil element. Contents unconstrained (C10 quantifies over every well-typed API state).
+
+//@ func DataLister.ListPods
+//@   props C10 C12 C14 C01
+//@   trusted
+//@   note interface method implemented by client-go informer listers (external): read-only, no nil element on success; object contents unconstrained
+//@   pure
+//@   ensures result1 == nil ==> forall i int :: 0 <= i && i < len(result0) ==> result0[i] != nil
+//@ end
+
+//@ func DataLister.ListNodes
+//@   props C10 C14 C01
+//@   trusted
+//@   note interface method implemented by client-go informer listers (external): read-only, no nil element on success; object contents unconstrained
+//@   pure
+//@   ensures result1 == nil ==> forall i int :: 0 <= i && i < len(result0) ==> result0[i] != nil
+//@ end
+
+//@ func DataLister.ListPodGroups
+//@   props C10
+//@   trusted
+//@   note interface method implemented by client-go informer listers (external): read-only, no nil element on success; object contents unconstrained
+//@   pure
+//@   ensures result1 == nil ==> forall i int :: 0 <= i && i < len(result0) ==> result0[i] != nil
+//@ end
+
+//@ func DataLister.ListResourceClaims
+//@   props C10 C12
+//@   trusted
+//@   note interface method implemented by client-go informer listers (external): read-only, no nil element on success; object contents unconstrained
+//@   pure
+//@   ensures result1 == nil ==> forall i int :: 0 <= i && i < len(result0) ==> result0[i] != nil
+//@ end
+
+//@ func DataLister.ListPriorityClasses
+//@   props C10
+//@   trusted
+//@   note interface method implemented by client-go informer listers (external): read-only, no nil element on success; object contents unconstrained
+//@   pure
+//@   ensures result1 == nil ==> forall i int :: 0 <= i && i < len(result0) ==> result0[i] != nil
+//@ end
+
+//@ func DataLister.GetPriorityClassByName
+//@   props C10
+//@   trusted
+//@   note interface method implemented by a client-go lister Get (external): read-only; returns a non-nil object exactly when the error is nil (NotFound otherwise)
+//@   pure
+//@   ensures result1 == nil ==> result0 != nil
+//@ end
+
+//@ func DataLister.ListPodByIndex
+//@   props C10 C14
+//@   trusted
+//@   note interface method implemented by the pod informer's indexer (external): read-only; the store of the pod informer only holds non-nil *v1.Pod objects, so on success every element is a boxed non-nil *v1.Pod. WHICH pods are returned is not assumed.
+//@   pure
+//@   ensures result1 == nil ==> forall i int :: 0 <= i && i < len(result0) ==> typeis(result0[i], "*v1.Pod") && unbox(result0[i], "*v1.Pod") != nil
+//@ end
+
+//@ func DataLister.ListResourceSlicesByNode
+//@   props C10
+//@   trusted
+//@   note interface method implemented over the ResourceSlice informer (external): read-only; the per-node slices of a successful listing hold no nil element
+//@   pure
+//@   ensures result1 == nil ==> forall n in result0 :: forall i int :: 0 <= i && i < len(result0[n]) ==> result0[n][i] != nil
+//@ end
+
+//@ func DataLister.ListConfigMaps
+//@   props C10
+//@   trusted
+//@   note interface method implemented by client-go informer listers (external): read-only, no nil element on success; object contents unconstrained
+//@   pure
+//@   ensures result1 == nil ==> forall i int :: 0 <= i && i < len(result0) ==> result0[i] != nil
+//@ end
+
+//@ func DataLister.ListTopologies
+//@   props C10
+//@   trusted
+//@   note interface method implemented by client-go informer listers (external): read-only, no nil element on success; object contents unconstrained
+//@   pure
+//@   ensures result1 == nil ==> forall i int :: 0 <= i && i < len(result0) ==> result0[i] != nil
+//@ end
